@@ -2,7 +2,8 @@
    Statements only; proofs in Proofs/EditProofs.v.  The model is the abstract
    editor on the decoded message; the byte-shuffling C code is tied to it by
    the correspondence run (bytes compared after every edit). *)
-From DV Require Import Lib.Base Spec.Codec Wire.HeaderEdit Proofs.EditProofs.
+From DV Require Import Lib.Base Spec.Codec Wire.HeaderEdit Proofs.EditProofs Proofs.CodecWf Proofs.CodecRoundtrip.
+From Coq Require Import Lia ZifyN ZifyNat.
 Local Open Scope N_scope.
 
 (* Full statement, incl. the serialisation half that is not yet a theorem:
@@ -50,6 +51,19 @@ Theorem C12_frame : forall es m,
   s_le m' = s_le m /\ s_type m' = s_type m /\ s_flags m' = s_flags m /\ s_serial m' = s_serial m /\ s_sig m' = s_sig m /\ s_body m' = s_body m.
 Proof. exact edits_frame. Qed.
 Print Assumptions C12_frame.
+
+(* the re-serialised header-field array of ANY field list (after any edits) decodes back to
+   exactly that list, in order, given only that the field values are well-formed *)
+Definition fields_val (le : bool) (fs : list sfield) : val := VArr (TStruct [TBasic 121; TVariant]) (map (enc_field le) fs).
+Theorem C12_fields_reserialise : forall le fs rest,
+  wfb le 0 12 (fields_val le fs) = true ->
+  dec le DEC_FUEL fields_array_ty 0 12 (enc le (fields_val le fs) 12 ++ rest)
+  = Some (fields_val le fs, 12 + nlen (enc le (fields_val le fs) 12), rest).
+Proof.
+  intros le fs rest H. pose proof (wfb_height le _ 0 12 H) as Hh.
+  apply (dec_enc le (fields_val le fs) DEC_FUEL 0 12 rest H). unfold DEC_FUEL. lia.
+Qed.
+Print Assumptions C12_fields_reserialise.
 
 (* non-vacuity *)
 Definition ex_fs : list sfield := [mk_field 1 (VStr 111 [47; 97]); mk_field 77 (VNum 121 5); mk_field 3 (VStr 115 [83])].
